@@ -91,22 +91,55 @@ type keyFull[K, W any] interface {
 
 func wrapIdxFwd[T any](it idxFwd[T], enc func(T) int) *cursor {
 	return &cursor{next: it.Next, first: it.First, begin: it.Begin,
-		nextTo: func(p pred) bool { return it.NextTo(func(i int, v T) bool { return p.holds(i, enc(v)) }) },
+		nextTo: func(p pred) bool { return it.NextTo(func(i int, v T) bool { curHook(); return p.holds(i, enc(v)) }) },
 		read:   func() (int, int) { return it.Index(), enc(it.Value()) }}
 }
 func wrapIdx[T any](it idxFull[T], enc func(T) int) *cursor {
 	c := wrapIdxFwd[T](it, enc)
 	c.reverse = true
 	c.prev, c.last, c.end = it.Prev, it.Last, it.End
-	c.prevTo = func(p pred) bool { return it.PrevTo(func(i int, v T) bool { return p.holds(i, enc(v)) }) }
+	c.prevTo = func(p pred) bool { return it.PrevTo(func(i int, v T) bool { curHook(); return p.holds(i, enc(v)) }) }
 	return c
 }
 func wrapKey(it keyFull[int, V]) *cursor {
 	return &cursor{keyed: true, reverse: true, next: it.Next, prev: it.Prev, first: it.First, last: it.Last,
 		begin: it.Begin, end: it.End,
-		nextTo: func(p pred) bool { return it.NextTo(func(k int, v V) bool { return p.holds(k, int(v)) }) },
-		prevTo: func(p pred) bool { return it.PrevTo(func(k int, v V) bool { return p.holds(k, int(v)) }) },
+		nextTo: func(p pred) bool { return it.NextTo(func(k int, v V) bool { curHook(); return p.holds(k, int(v)) }) },
+		prevTo: func(p pred) bool { return it.PrevTo(func(k int, v V) bool { curHook(); return p.holds(k, int(v)) }) },
 		read:   func() (int, int) { return it.Key(), int(it.Value()) }}
+}
+
+// companion activity (every other walk): a SECOND iterator over the same container moves and reads, and the container is
+// read, between the calls of the iterator under test, between its move and its read, and from inside its NextTo / PrevTo
+// predicates.  Iterators are independent cursors and reads are pure: nothing the iterator under test answers may change.
+var curHook = func() {}
+var curWalks = 0
+
+func makeCompanion(x Inst, r *rand.Rand) func() {
+	var other *cursor
+	if gi := invoke(Ev{"op": "Iterator", "kind": x.Kind()}, func() { other, _ = makeCursor(x) }); gi.Panic || other == nil {
+		return func() {}
+	}
+	return func() {
+		ok := false
+		switch k := r.Intn(8); {
+		case k < 3:
+			ok = other.next()
+		case k == 3 && other.reverse:
+			ok = other.prev()
+		case k == 4:
+			ok = other.first()
+		case k == 5 && other.reverse:
+			ok = other.last()
+		case k == 6:
+			other.begin()
+		default:
+			safeObserve(x) // Values / Keys / String / Size / lookups of the container itself
+		}
+		if ok {
+			other.read()
+		}
+	}
 }
 
 func idInt(v int) int { return v }
@@ -186,9 +219,13 @@ func makeCursor(x Inst) (*cursor, [][]int) {
 func wrapKeyCoded[K cmp.Ordered](it keyFull[K, V], c *codec[K]) *cursor {
 	return &cursor{keyed: true, reverse: true, next: it.Next, prev: it.Prev, first: it.First, last: it.Last,
 		begin: it.Begin, end: it.End,
-		nextTo: func(p pred) bool { return it.NextTo(func(k K, v V) bool { return p.holds(c.enc(k), int(v)) }) },
-		prevTo: func(p pred) bool { return it.PrevTo(func(k K, v V) bool { return p.holds(c.enc(k), int(v)) }) },
-		read:   func() (int, int) { return c.enc(it.Key()), int(it.Value()) }}
+		nextTo: func(p pred) bool {
+			return it.NextTo(func(k K, v V) bool { curHook(); return p.holds(c.enc(k), int(v)) })
+		},
+		prevTo: func(p pred) bool {
+			return it.PrevTo(func(k K, v V) bool { curHook(); return p.holds(c.enc(k), int(v)) })
+		},
+		read: func() (int, int) { return c.enc(it.Key()), int(it.Value()) }}
 }
 
 func dfltCursor(target any) (*cursor, [][]int) {
@@ -396,6 +433,13 @@ func cursorWalkAt(j *jobCtx, x Inst, maxSteps int, at int) {
 	}
 	emit(ev(Ev{"op": "NewIter", "rs": 1, "seq": seq, "keyed": cur.keyed, "rev": cur.reverse, "panic": false, "pmsg": "",
 		"out": ci.Out, "p": pred{Name: "true"}, "ret": false, "has": false, "key": 0, "val": 0, "idx": 0, "pure": true}))
+	curWalks++
+	companion := func() {}
+	if curWalks%2 == 0 && len(seq) <= 64 {
+		companion = makeCompanion(x, j.r)
+	}
+	curHook = companion
+	defer func() { curHook = func() {} }()
 	calls := curCalls(cur.reverse)
 	n := len(seq)
 	covered := map[[2]int]bool{}
@@ -435,6 +479,7 @@ func cursorWalkAt(j *jobCtx, x Inst, maxSteps int, at int) {
 		var a, b int
 		e := ev(Ev{"op": c.op, "rs": 0, "p": c.p})
 		ci := invoke(e, func() {
+			companion()
 			switch c.op {
 			case "Next":
 				ret = cur.next()
@@ -453,6 +498,7 @@ func cursorWalkAt(j *jobCtx, x Inst, maxSteps int, at int) {
 			case "PrevTo":
 				ret = cur.prevTo(c.p)
 			}
+			companion()
 			// values are read only after a move that returned true - and not after every such move:
 			// a caller may step several times before looking
 			if ret && c.op != "Begin" && c.op != "End" && skipRead.Intn(3) != 0 {
